@@ -145,12 +145,14 @@ DOC_BUILTINS = (int, bool, float, str, bytes, bytearray, list, set, frozenset, t
 
 # triage identifiers of behaviours of the unchanged tree that contradict the statement (reported, not hidden)
 F_ALIAS = "aliasChainRaises"
-F_DIRECT = "directPredicateNoResolution"
+F_DIRECT_W = "directPredicateOnWrapper"     # NewType / alias asked directly (the library itself unwraps first)
+F_DIRECT_G = "directPredicateOnGeneric"     # subscripted generic / bare typing alias / mapped ABC: re.Pattern[str], typing.Pattern
 F_SEQ = "sequenceNotCollection"
 F_ABSTRACT = "originAbstractABC"
 F_CALLABLE = "callableClassOrigin"
 F_REPR = "reprBasedGenericDetection"
 F_CVLIT = "classVarLookThrough"
+F_HASHCLS = "ishashableOnClass"
 BARE_SPECIAL = {"typing.Union", "types.UnionType", "typing.Optional", "typing.Literal", "typing.Final", "typing.ClassVar",
                 "typing.Generic"}
 # not modelled: `types.UnionType.__args__` is a member descriptor, iterating it raises
@@ -708,8 +710,10 @@ def judge_one(J, env, spec, real, m):
                 finding = F_ALIAS
             elif p == "issequencetype" and isinstance(a, bool):
                 finding = F_SEQ
-            elif p in GROUP_B and a is False and (O["wrapped"] or O["generic_or_mapped"]):
-                finding = F_DIRECT
+            elif p in GROUP_B and a is False and O["wrapped"]:
+                finding = F_DIRECT_W
+            elif p in GROUP_B and a is False and O["generic_or_mapped"]:
+                finding = F_DIRECT_G
             J.fail("class-valued", f"{p} disagrees with issubclass on the class the annotation resolves to ({O['resolved']})",
                    spec, p, a, e, finding)
         sc = O.get("std_collection")
@@ -755,6 +759,176 @@ def judge_one(J, env, spec, real, m):
                 J.fail("args", "args() differs from typing.get_args with TypeVars normalised", spec, "args", real["args"], O["args"])
     else:
         res.count("outside:special-form-predicate-on-wrapped-special-form")
+
+
+
+# ----------------------------------------------------------------------------------------------- signature helpers, instance predicates (oracle only)
+
+DOC_STDLIB = DOC_BUILTINS + (datetime.datetime, datetime.date, datetime.timedelta, datetime.time, decimal.Decimal,
+                             __import__("ipaddress").IPv4Address, __import__("ipaddress").IPv6Address, pathlib.Path, uuid.UUID,
+                             collections.defaultdict, collections.deque, types.MappingProxyType)
+DESCRIPTOR_METHODS = ("__get__", "__set__", "__delete__", "__set_name__")
+
+
+def sig_view(sig):
+    return [[n, p.kind.name, repr(p.annotation), repr(p.default)] for n, p in sig.parameters.items()]
+
+
+def run_helpers(job):
+    """Child: signature helpers on the synthesised classes, instance predicates on instances."""
+    import warnings
+    warnings.simplefilter("ignore")
+    from typelib.py import inspection
+    um = cat.user_module()
+    bad, n = [], 0
+
+    def check(what, got, exp, subject):
+        nonlocal n
+        n += 1
+        if got != exp:
+            bad.append({"what": what, "subject": subject, "real": got if isinstance(got, (bool, str, list)) else repr(got)[:200],
+                        "expected": exp if isinstance(exp, (bool, str, list)) else repr(exp)[:200]})
+
+    def attempt(f, *a, **k):
+        try:
+            return f(*a, **k)
+        except BaseException as e:  # noqa: BLE001
+            return "raise:" + type(e).__name__
+
+    def fn(a, b: int = 1, *c: str, d: "int", **e) -> None: ...
+    classes = [um.DC, um.FrozenDC, um.DCSub, um.NT, um.NTc, um.NTSub, um.Plain, um.PlainSub, um.Slotted, um.Gen, um.GenSub,
+               um.MyList, um.MyStr, um.MyMapping, um.Color, um.WithProps]
+    # signature(): inspect.signature for everything but TypedDicts and non-named tuples
+    for c in classes + [fn, um.Plain(1).__init__, lambda x, y=2: x]:
+        s = attempt(inspection.signature, c)
+        e = attempt(inspect.signature, c)
+        check("signature == inspect.signature", sig_view(s) if not isinstance(s, str) else s,
+              sig_view(e) if not isinstance(e, str) else e, repr(c))
+    for td in (um.TD, um.TDPartial):
+        hints = typing.get_type_hints(td)
+        for name, f in (("signature", inspection.signature), ("typed_dict_signature", inspection.typed_dict_signature)):
+            s = attempt(f, td)
+            if isinstance(s, str):
+                check(name + "(TypedDict)", s, "a signature", repr(td))
+                continue
+            check(name + "(TypedDict): one keyword-only parameter per hint, in order, annotated with the hint",
+                  [[n_, p.kind.name, p.annotation] for n_, p in s.parameters.items()],
+                  [[k, "KEYWORD_ONLY", v] for k, v in hints.items()], repr(td))
+            check(name + "(TypedDict): keys are required iff the TypedDict is total",
+                  [p.default is inspect.Parameter.empty for p in s.parameters.values()], [bool(td.__total__)] * len(hints), repr(td))
+    for t, exp in ((tuple[int, str], [["arg0", "POSITIONAL_ONLY", int], ["arg1", "POSITIONAL_ONLY", str]]),
+                   (typing.Tuple[int, str], [["arg0", "POSITIONAL_ONLY", int], ["arg1", "POSITIONAL_ONLY", str]]),
+                   (tuple[int, ...], [["args", "VAR_POSITIONAL", int]]), (typing.Tuple[int, ...], [["args", "VAR_POSITIONAL", int]]),
+                   (tuple, [["args", "VAR_POSITIONAL", typing.Any]]), (um.MyTuple, [["args", "VAR_POSITIONAL", typing.Any]])):
+        for name, f in (("signature", inspection.signature), ("tuple_signature", inspection.tuple_signature)):
+            s = attempt(f, t)
+            check(name + "(tuple type): one parameter per typing.get_args member",
+                  [[n_, p.kind.name, p.annotation] for n_, p in s.parameters.items()] if not isinstance(s, str) else s, exp, repr(t))
+    # get_type_hints: typing.get_type_hints when there are hints, else the signature's parameters
+    for c in classes + [um.TD, fn]:
+        e = attempt(typing.get_type_hints, c)
+        g = attempt(inspection.get_type_hints, c)
+        if isinstance(e, dict) and e:
+            check("get_type_hints == typing.get_type_hints", g, e, repr(c))
+        elif isinstance(e, dict):
+            sg = attempt(inspect.signature, c)
+            if not isinstance(sg, str) and isinstance(g, dict):
+                check("get_type_hints falls back on the signature's parameter names", list(g), list(sg.parameters), repr(c))
+            check("get_type_hints(exhaustive=False) is empty without hints", attempt(inspection.get_type_hints, c, exhaustive=False), {},
+                  repr(c))
+    # safe_get_params
+    for c in classes:
+        g = attempt(inspection.safe_get_params, c)
+        if issubclass(c, cabc.Mapping):
+            check("safe_get_params(mapping class) is empty", dict(g) if not isinstance(g, str) else g, {}, repr(c))
+        else:
+            e = attempt(inspect.signature, c)
+            check("safe_get_params == inspect.signature(...).parameters", list(g) if not isinstance(g, str) else g,
+                  list(e.parameters) if not isinstance(e, str) else [], repr(c))
+    check("safe_get_params(TypedDict)", list(attempt(inspection.safe_get_params, um.TD)), list(typing.get_type_hints(um.TD)), "TD")
+    # simple_attributes: public static data attributes
+    def simple_expected(t):
+        if getattr(t, "__slots__", None):
+            return sorted(f for f in t.__slots__ if not f.startswith("_"))
+        out = []
+        for n_, v in inspect.getmembers(t):
+            if n_.startswith("_") or inspect.isclass(v) or inspect.isroutine(v):
+                continue
+            if isinstance(v, (property, functools.cached_property)) or any(hasattr(v, m) for m in DESCRIPTOR_METHODS):
+                continue
+            out.append(n_)
+        return sorted(out)
+    for c in (um.Slotted, um.WithProps, um.Plain, um.DC, um.Color):
+        g = attempt(inspection.simple_attributes, c)
+        check("simple_attributes: the public, static data attributes", sorted(g) if not isinstance(g, str) else g, simple_expected(c), repr(c))
+    # name / qualname
+    for c in classes + [int, dict, datetime.date, cabc.Sequence]:
+        check("name(cls) == cls.__name__", attempt(inspection.name, c), c.__name__, repr(c))
+        check("qualname(cls) == cls.__qualname__", attempt(inspection.qualname, c), c.__qualname__.replace("<locals>.", ""), repr(c))
+    for g_, nm in ((typing.Dict[str, int], "Dict"), (dict[str, int], "dict"), (typing.List[int], "List"), (list[int], "list"),
+                   (cabc.Sequence[int], "Sequence"), (typing.Sequence[int], "Sequence"), (typing.Optional[int], "Optional"),
+                   (typing.Union[int, str], "Union"), (typing.Any, "Any"), (um.Gen[int], "Gen")):
+        check("name(X[...]) is the unsubscripted name", attempt(inspection.name, g_), nm, repr(g_))
+        check("name(X[...]) == name(X)", attempt(inspection.name, g_),
+              attempt(inspection.name, typing.get_origin(g_) if isinstance(g_, types.GenericAlias) else
+                      getattr(typing, getattr(g_, "_name", "") or "", g_)) if nm not in ("Optional", "Union", "Any", "Gen") else nm,
+              repr(g_))
+    # instance predicates
+    class Desc:
+        def __get__(self, i, o):
+            return 1
+    class Holder:
+        d = Desc()
+        @property
+        def p(self):
+            return 1
+        @functools.cached_property
+        def cp(self):
+            return 2
+        def m(self):
+            return 3
+    instances = [1, True, 1.5, "s", b"b", bytearray(b"x"), None, [], [1], {}, {"a": 1}, set(), frozenset(), (), (1, 2), um.DC(1),
+                 um.FrozenDC(1), um.NT(1), um.Plain(1), um.Color.red, um.StrE.a, um.IntE.one, datetime.date(2020, 1, 2),
+                 datetime.datetime(2020, 1, 2), datetime.time(1), datetime.timedelta(1), decimal.Decimal("1"),
+                 fractions.Fraction(1, 2), uuid.UUID(int=1), pathlib.PurePosixPath("a"), pathlib.Path("a"), collections.deque(),
+                 collections.defaultdict(int), collections.OrderedDict(), types.MappingProxyType({}), re.compile("a"),
+                 um.MyList(), um.MyDict(), um.MyStr("x"), um.MyInt(1), um.MyMapping(), um.MyIter(), lambda: 1, len, int, um.DC, Desc(),
+                 Desc, Holder.__dict__["p"], Holder.__dict__["cp"], Holder.m, Holder().m, Holder.__dict__["d"], slice(1), object(),
+                 range(3), iter([]), typing.Any, typing.List[int], Ellipsis, NotImplemented, 1j, memoryview(b"")]
+    for o in instances:
+        r = repr(o)[:60]
+        check("ishashable(o) == isinstance(o, Hashable)", attempt(inspection.ishashable, o), isinstance(o, cabc.Hashable), r)
+        check("isproperty(o) == isinstance(o, (property, cached_property))", attempt(inspection.isproperty, o),
+              isinstance(o, (property, functools.cached_property)), r)
+        if not isinstance(o, types.MethodType):      # a bound method forwards attribute access to its function
+            check("isdescriptor(o) == has one of __get__/__set__/__delete__/__set_name__", attempt(inspection.isdescriptor, o),
+                  any(hasattr(o, m) for m in DESCRIPTOR_METHODS), r)
+        check("isbuiltininstance(o) == isinstance(o, documented builtins)", attempt(inspection.isbuiltininstance, o),
+              isinstance(o, DOC_BUILTINS), r)
+        check("isstdlibinstance(o) == isinstance(o, documented stdlib types)", attempt(inspection.isstdlibinstance, o),
+              isinstance(o, DOC_STDLIB), r)
+        exp = not (inspect.isclass(o) or inspect.isroutine(o) or isinstance(o, (property, functools.cached_property))
+                   or (any(hasattr(o, m) for m in DESCRIPTOR_METHODS) and not isinstance(o, types.MethodType)))
+        check("issimpleattribute(o) == not class / routine / property / descriptor", attempt(inspection.issimpleattribute, o), exp, r)
+    return {"n": n, "bad": bad}
+
+
+def evaluate_helpers(res):
+    core.import_typelib()
+    out = iso.map_isolated(run_helpers, [{}], timeout=120.0)[0]
+    if isinstance(out, dict) and "crash" in out:
+        raise RuntimeError(f"harness: helper child crashed: {out}")
+    res.programs += 1
+    for _ in range(out["n"]):
+        res.evaluations += 1
+    res.count("oracle:helpers-and-instance-predicates:checks", out["n"])
+    for b in out["bad"]:
+        f = {"what": b["what"], "input": {"ann": None, "shown": b["subject"], "pred": b["what"].split("(")[0].split(" ")[0]},
+             "real": b["real"], "expected": b["expected"], "kind": "helpers"}
+        if f["input"]["pred"] == "ishashable" and b["subject"].startswith("<class ") and b["real"] is False:
+            f["finding"] = F_HASHCLS
+        res.count(("FINDING:" + f["finding"] if "finding" in f else "FAIL:helpers") + ":" + f["input"]["pred"])
+        res.failures.append(f)
 
 
 # ----------------------------------------------------------------------------------------------- evaluation
@@ -869,11 +1043,77 @@ def explore(ctx):
     env = Env(inspection)
     bulk, fams = build_annotations(ctx, env)
     evaluate(ctx, res, env, bulk, fams)
+    evaluate_helpers(res)
     return res
 
 
-def witness(fid):
+def _witness_child(fid):
+    """Minimal reproduction of each reported behaviour; True = it still fails."""
+    import warnings
+    warnings.simplefilter("ignore")
+    from typelib.py import inspection as I
+
+    def raises(f, *a):
+        try:
+            f(*a)
+            return False
+        except Exception:  # noqa: BLE001
+            return True
+    if fid == F_ALIAS:
+        a2 = typing.TypeAliasType("A2", typing.TypeAliasType("A1", datetime.date))
+        return raises(I.isdatetype, a2) or I.isdatetype(a2) is not True
+    if fid == F_DIRECT_W:
+        return I.isstringtype(typing.NewType("S", str)) is not True
+    if fid == F_DIRECT_G:
+        return I.ispatterntype(re.Pattern[str]) is not True
+    if fid == F_SEQ:
+        return I.issequencetype(dict) != I.issequencetype(collections.OrderedDict)
+    if fid == F_ABSTRACT:
+        og = I.origin(typing.Iterator[int])
+        return not cat.instantiable(og)
+    if fid == F_CALLABLE:
+        class C:
+            def __call__(self):
+                return 1
+        return I.origin(C) is not C
+    if fid == F_REPR:
+        return I.issubscriptedgeneric(int | None) is not True
+    if fid == F_CVLIT:
+        return I.unwrap(typing.ClassVar[typing.Literal[1]]) is not typing.Literal[1]
+    if fid == F_HASHCLS:
+        @dataclasses.dataclass
+        class D:
+            a: int
+        return I.ishashable(D) is not True
     return None
+
+
+FINDINGS = {
+    F_ALIAS: "origin() resolves NewTypes, then ONE alias level: for Alias(Alias(X)) / Alias(NewType(X)) it returns the inner alias / "
+             "NewType object and the 13 origin-based predicates raise TypeError (isdatetype(TypeAliasType('A2', TypeAliasType('A1', date))))",
+    F_DIRECT_W: "the 9 _safe_issubclass predicates (isstringtype, isnumbertype, isenumtype, ...) do not resolve NewType / alias "
+                "wrappers: isstringtype(NewType('S', str)) is False (the dispatch tables call unwrap first)",
+    F_DIRECT_G: "the same predicates do not take the typing origin: ispatterntype(re.Pattern[str]) and ispatterntype(typing.Pattern) "
+                "are False, so unmarshal(re.Pattern[str], 'a+') raises TypeError; isstringtype(Hashable) is False although origin(Hashable) is str",
+    F_SEQ: "issequencetype is `in _COLLECTIONS or issubclass(.., Sequence)`: True for dict / set / frozenset but False for their "
+           "subclasses (OrderedDict, defaultdict, Counter, class D(dict)), for TypedDicts and for the mapping views",
+    F_ABSTRACT: "origin() of Iterator / Generator / Reversible / ByteString / AsyncIterator ... annotations is the abstract ABC itself",
+    F_CALLABLE: "origin(C) is typing.Callable for every class C that defines __call__ (and for `type`): class-valued predicates raise "
+                "TypeError, isunresolvable(C) is True, unmarshal(C, {...}) returns its input",
+    F_REPR: "isgeneric / issubscriptedgeneric / name / qualname read str(t): `int | None` is not subscripted while Optional[int] is, "
+            "ForwardRef('List[int]') is; and since the caches are keyed by ==, the answer for one spelling is served for the other",
+    F_CVLIT: "origin() looks through ClassVar, so isliteral(ClassVar[Literal[1]]) is True and should_unwrap False: "
+             "unwrap(ClassVar[Literal[1]]) keeps the ClassVar; isuniontype(ClassVar[Optional[int]]) is True but isoptionaltype is False",
+    F_HASHCLS: "ishashable(cls) looks at cls.__hash__, the hash of the INSTANCES: False for every eq dataclass class although hash(cls) works",
+}
+
+
+def witness(fid):
+    if fid not in FINDINGS:
+        return None
+    core.import_typelib()
+    r = iso.map_isolated(_witness_child, [fid])[0]
+    return r if isinstance(r, bool) else None
 
 
 def replay(failure):
